@@ -133,19 +133,6 @@ theorem abortOne_str {P s} (h : Str P s) (i) : Str P (abortOne s i) := by
 theorem abortObjs_str {P s} (h : Str P s) : Str P (abortObjs s) :=
   foldl_pres (Str P) abortOne (fun _ k h => abortOne_str h k) _ s h
 
-theorem abortSavepoint_str {P s} (h : Str P s) : Str P (abortSavepoint s) := by
-  unfold abortSavepoint
-  split
-  · exact h
-  · apply invalidateAll_str
-    exact (invalidateCreating_str h _).congr rfl rfl rfl rfl
-
-theorem connAbort_str {P s} (h : Str P s) : Str P (connAbort s) := by
-  unfold connAbort tpcCleanup
-  dsimp only
-  refine Str.congr (s := invalidateCreating (abortSavepoint (abortObjs s)) (abortSavepoint (abortObjs s)).creating.keys) ?_ rfl rfl rfl rfl
-  exact invalidateCreating_str (abortSavepoint_str (abortObjs_str h)) _
-
 theorem drain_aux {P} : ∀ (l : Map ObjId) (t : State), Str P t → t.added = l →
     let r := l.foldl (fun (s : State) (p : Oid × ObjId) =>
       disown { s with added := s.added.del p.1 } p.2) t
@@ -176,48 +163,4 @@ theorem drainAdded_str {P s} (h : Str P s) : Str P (drainAdded s) := by
 
 theorem drainAdded_added (s : State) : (drainAdded s).added = [] := rfl
 
-theorem connTpcAbort_str {P s} (h : Str P s) : Str P (connTpcAbort s) := by
-  unfold connTpcAbort tpcCleanup
-  dsimp only
-  split
-  · exact h
-  · refine Str.congr (s := drainAdded _) (drainAdded_str ?_) rfl rfl rfl rfl
-    refine Str.congr (s := invalidateCreating _ _) (invalidateCreating_str ?_ _) rfl rfl rfl rfl
-    apply invalidateAll_str
-    exact (abortSavepoint_str h).congr rfl rfl rfl rfl
-
-theorem cleanup_str {P s} (h : Str P s) (v) : Str P (cleanup v s) := by
-  unfold cleanup
-  apply connTpcAbort_str
-  split
-  · exact h
-  · exact connAbort_str h
-
-theorem pollOne_str {P s} (h : Str P s) (p) : Str P (pollOne s p) := by
-  unfold pollOne
-  dsimp only
-  repeat' split
-  all_goals first | exact h | exact h.setO_same _ _ rfl rfl
-
-theorem poll_str {P s} (h : Str P s) : Str P (poll s) := by
-  unfold poll
-  exact foldl_pres (Str P) pollOne (fun _ k h => pollOne_str h k) _ _ (h.congr rfl rfl rfl rfl)
-
-theorem afterCompletion_str {P s} (h : Str P s) : Str P (afterCompletion s) := by
-  unfold afterCompletion
-  dsimp only
-  split
-  · exact poll_str (h.congr rfl rfl rfl rfl)
-  · exact h.congr rfl rfl rfl rfl
-
-theorem rollbackSavepoint_str {P s} (h : Str P s) (p idx cr) : Str P (rollbackSavepoint s p idx cr) := by
-  unfold rollbackSavepoint
-  dsimp only
-  split
-  · exact (abortObjs_str h).congr rfl rfl rfl rfl
-  · apply invalidateAll_str
-    refine Str.congr (s := invalidateCreating _ _) (invalidateCreating_str ?_ _) rfl rfl rfl rfl
-    exact (abortObjs_str h).congr rfl rfl rfl rfl
-
 end Proofs.Conn
-
